@@ -1,6 +1,7 @@
 package main
 
 import (
+	"encoding/json"
 	"sort"
 
 	"github.com/tidwall/geojson/verifsim"
@@ -242,6 +243,21 @@ func (g *gen) recipe(kind string, depth int, small bool) Recipe {
 	return rc
 }
 
+func shiftRecipe(rc *Recipe, dx, dy float64) {
+	rc.Shape.Cx += dx
+	rc.Shape.Cy += dy
+	for i := range rc.Children {
+		shiftRecipe(&rc.Children[i], dx, dy)
+	}
+}
+
+func cloneRecipe(rc *Recipe) *Recipe {
+	b, _ := json.Marshal(rc)
+	var c Recipe
+	_ = json.Unmarshal(b, &c)
+	return &c
+}
+
 func propagateOpts(rc *Recipe) {
 	for i := range rc.Children {
 		rc.Children[i].Opts = rc.Opts
@@ -422,6 +438,52 @@ func genSpec(seed uint64, worker, run int, tier string) (*Spec, *Rng, faultSet) 
 	for i := len(s.Pool) - 1; i > 0; i-- {
 		j := r.Intn(i + 1)
 		s.Pool[i], s.Pool[j] = s.Pool[j], s.Pool[i]
+	}
+	if r.Chance(0.3) {
+		// a SIBLING: same geometry as an existing object, one configuration
+		// dimension changed (state keyed by value that forgets a dimension
+		// confuses the two)
+		src := s.Pool[r.Intn(len(s.Pool))]
+		sib := *cloneRecipe(&src)
+		switch r.Intn(5) {
+		case 0:
+			if sib.Via == "parse" {
+				sib.Via = "ctor"
+			} else {
+				sib.Via = "parse"
+			}
+		case 1:
+			sib.Opts.IndexGeometryKind = (sib.Opts.IndexGeometryKind + 1 + r.Intn(2)) % 3
+			sib.Opts.IndexGeometry = r.Pick(0, 1, 4, 64)
+			propagateOpts(&sib)
+		case 2:
+			sib.Shape.Steps = r.Pick(3, 4, 8, 12, 32)
+			sib.Via = "ctor"
+		case 3:
+			sib.Dims = r.Pick(0, 3, 4)
+			sib.Members = r.PickS("", geomMembers[0], geomMembers[1])
+		default:
+			sib.Opts.IndexChildren = r.Pick(0, 1, 3, 64)
+			sib.Opts.AllowRects = !sib.Opts.AllowRects
+			sib.Opts.AllowSimplePoints = !sib.Opts.AllowSimplePoints
+			propagateOpts(&sib)
+		}
+		if sib.Via != "share" {
+			s.Pool = append(s.Pool, sib)
+			n = len(s.Pool)
+		}
+	}
+	if r.Chance(0.15) {
+		// one more object that WRAPS earlier pool objects without copying them
+		sh := Recipe{Via: "share", Kind: r.PickS("FeatureCollection", "GeometryCollection", "Feature")}
+		for k := r.Range(1, 3); k > 0; k-- {
+			sh.Refs = append(sh.Refs, r.Intn(len(s.Pool)))
+		}
+		if sh.Kind == "Feature" {
+			sh.Members = featureMembers[r.Intn(len(featureMembers))]
+		}
+		s.Pool = append(s.Pool, sh)
+		n = len(s.Pool)
 	}
 	hot := []int{r.Intn(n)}
 	if r.Chance(0.5) {
@@ -607,12 +669,34 @@ func (g *gen) duel(s *Spec) {
 	r := g.r
 	n := len(s.Pool)
 	h1 := r.Intn(n)
+	if r.Chance(0.6) {
+		// prefer composite objects (wrappers and collections)
+		for k := 0; k < 8; k++ {
+			c := r.Intn(n)
+			switch s.Pool[c].Kind {
+			case "Feature", "FeatureCollection", "GeometryCollection", "MultiPolygon", "MultiLineString", "MultiPoint":
+				h1 = c
+				k = 8
+			}
+		}
+	}
 	h2 := (h1 + 1 + r.Intn(n-1)) % n
-	for k := 0; k < 8; k++ {
-		c := r.Intn(n)
-		if c != h1 && s.Pool[c].Kind == s.Pool[h1].Kind && s.Pool[c].Via == s.Pool[h1].Via {
-			h2 = c
-			break
+	if s.Pool[h1].Via != "share" && r.Chance(0.7) {
+		// the opponent is a sibling of h1: same structure, built separately,
+		// shifted a little so that the two overlap without being equal
+		sib := *cloneRecipe(&s.Pool[h1])
+		if r.Chance(0.7) {
+			shiftRecipe(&sib, r.Coord(-2, 2), r.Coord(-2, 2))
+		}
+		s.Pool = append(s.Pool, sib)
+		h2 = len(s.Pool) - 1
+	} else {
+		for k := 0; k < 8; k++ {
+			c := r.Intn(n)
+			if c != h1 && s.Pool[c].Kind == s.Pool[h1].Kind && s.Pool[c].Via == s.Pool[h1].Via {
+				h2 = c
+				break
+			}
 		}
 	}
 	nt := r.Pick(2, 2, 3, 4)
